@@ -219,7 +219,9 @@ def tileset_constraints(F, S):
     ex = {(f[0], expand(f[1], defs), expand(f[2], defs)) if f[0] in ("==", "!=", "<", "<=") else f for f in ex}
     bc = any(f[0] == "==" and ("mem", ih, "bitCount") in (f[1], f[2]) and ("const", 8) in (f[1], f[2]) for f in ex)
     wd = any(f[0] == "==" and ("mem", ih, "width") in (f[1], f[2]) and ("const", 32) in (f[1], f[2]) for f in ex)
-    ht = any(f[0] == "==" and ("const", 0) in (f[1], f[2]) and "height" in repr(f) and "%" in repr(f) and "32" in repr(f) for f in ex)
+    def mod32(t):
+        return t[0] == "op" and ((t[1] == "&" and t[3] == ("const", 31)) or (t[1] == "%" and t[3] == ("const", 32))) and "eight" in repr(t[2])
+    ht = any(f[0] == "==" and ("const", 0) in (f[1], f[2]) and (mod32(f[1]) or mod32(f[2])) for f in ex)
     inst = T + "ValidateTileset#constraints"
     req = "after validation: bitCount == 8, width == 32 (the pixel width itself), height % 32 == 0"
     if bc and wd and ht:
